@@ -9,6 +9,8 @@ def run(chk, prog, tier):
     CR.t6_modrm_shape(chk, prog, rule="T6")
     CR.t6_modrm_shape(chk, prog, rule="T6s", want_sib=True)
     CR.nobase_mod_rule(chk, prog)
+    from valib import pipeline as PLo
+    PLo.prefix_after_rewrite_rule(chk, prog)
     from valib import pipeline as PL
     from valib import cover as CV
     roles = PL.Roles(prog)
